@@ -66,6 +66,8 @@ SubAtoms(i, sub) == [j \in 1..(Len(sub) + 1) |->
                        IF j > 1 /\ IsRegexOp(sub[j - 1]) THEN ReL(SubName(i, j - 1)) ELSE Ref(SubName(i, j - 1))]
 
 Signed(m, e) == Bin("*", IntL(m), e)
+\* the desugared sign of an operand ( -x is the node -1 * x ): an atom of the chain, not one of its operators
+IsSignedLit(t) == t.k = "BinaryExpr" /\ t.Op = "*" /\ t.LHS.k = "IntegerLiteral" /\ t.LHS.Val \in {"-1", "1"} /\ t.RHS.k \in {"VarRef", "ParenExpr"}
 \* every pair of parentheses is one ParenExpr node ("parenthesised groups are kept")
 RECURSIVE Wrap(_, _)
 Wrap(e, d) == IF d = 0 THEN e ELSE Paren(Wrap(e, d - 1))
@@ -94,6 +96,17 @@ RefTree(c) ==
               IF j = 1 THEN Atom(c.first, FALSE, FALSE)
               ELSE Atom(c.items[j - 1].x, IsRegexOp(c.items[j - 1].op), FALSE)]
   IN RefGroup(s, a, 1, Len(s))
+
+\* The same grouping, characterised locally (linear to check; used for chains too long for RefGroup, and model-checked
+\* against RefTree on every chain of the exhaustive parts - invariant Local of Gen_c03): a tree whose in-order reading is
+\* the chain is THE tree of the property iff at every operator node a right child that is an (unparenthesised) operator
+\* node binds strictly tighter, and a left child that is one binds at least as tight.
+RECURSIVE LocallyGrouped(_)
+LocallyGrouped(t) ==
+  IF t.k # "BinaryExpr" THEN TRUE
+  ELSE /\ (t.RHS.k = "BinaryExpr" /\ ~IsSignedLit(t.RHS)) => Prec(t.RHS.Op) > Prec(t.Op)
+       /\ (t.LHS.k = "BinaryExpr" /\ ~IsSignedLit(t.LHS)) => Prec(t.LHS.Op) >= Prec(t.Op)
+       /\ LocallyGrouped(t.LHS) /\ LocallyGrouped(t.RHS)
 
 \* --------------------------------------------------------------- rendering
 RECURSIVE SubToks(_, _, _)
